@@ -87,7 +87,7 @@ def gen_g(r, name):
     t = wchoice(r, [("mix", 5), ("loop_sum", 1), ("bool_list", 1.2), ("lookup", 1), ("tuple", 1), ("const_index", 0.5), ("range", 0.4), ("with_def", 1.5), ("ifstmt", 1), ("list_tuples", 0.5),
                     ("builtins", 1.5), ("two_lists", 0.8), ("inner_def", 1.2), ("minmax", 0.6),
                     ("unpack", 0.8), ("enum_loop", 0.8), ("forward", 0.8), ("double_index", 0.6), ("augassign", 0.6), ("multi_assign", 1.0),
-                    ("reassign", 0.8), ("iterate_twice", 0.8), ("branch_const", 0.8), ("prefix_names", 0.6), ("sum_builtin", 1.2), ("param_mutated", 1.4)])
+                    ("reassign", 0.8), ("iterate_twice", 0.8), ("branch_const", 0.8), ("prefix_names", 0.6), ("sum_builtin", 1.2), ("param_mutated", 1.4), ("other_types", 2.0)])
     defs = []
     if t == "mix":
         # 1-4 parameters interleaved anywhere in the signature with 1-3 real arguments
@@ -213,6 +213,44 @@ def gen_g(r, name):
             params, args, ret = [("p", "bool"), ("q", "bool")], [("a", "bool"), ("b", "bool")], "bool"
             src = (f"def {name}(p: Parameter[bool], a: bool, q: Parameter[bool], b: bool) -> bool:\n    p = not p\n    q ^= p\n    r = b\n    if p:\n        r = a\n    if q:\n        r = r ^ b\n"
                    f"    else:\n        r = r or a\n    return r\n")
+    elif t == "other_types":
+        # "every supported parameter type": fixed-point, characters, boolean matrices, nested tuples, 8-bit integers.
+        # Only comparisons / boolean structure, so that plain Python is the meaning whatever the widths
+        form = r.randrange(9)
+        cmp_ = r.choice([">", "<", "==", "!=", ">=", "<="])
+        mix = r.choice(["({e}) ^ a", "({e}) and a", "({e}) or a", "a if ({e}) else (not a)"])
+        if form in (0, 1):
+            ft = "Qfixed[2,2]" if form == 0 else "Qfixed[1,2]"
+            params, args, ret = [("c", ft), ("d", ft)], [("a", "bool")], "bool"
+            src = f"def {name}(c: Parameter[{ft}], a: bool, d: Parameter[{ft}]) -> bool:\n    return {mix.format(e=f'c {cmp_} d')}\n"
+        elif form == 2:
+            n = r.randint(2, 3)
+            i, j = r.sample(range(n), 2)
+            params, args, ret = [("c", f"Qlist[Qfixed[2,2], {n}]")], [("a", "bool")], "bool"
+            src = f"def {name}(c: Parameter[Qlist[Qfixed[2,2], {n}]], a: bool) -> bool:\n    return {mix.format(e=f'c[{i}] {cmp_} c[{j}]')}\n"
+        elif form == 3:
+            eq = r.choice(["==", "!="])
+            params, args, ret = [("c", "Qchar"), ("d", "Qchar")], [("a", "bool")], "bool"
+            src = f"def {name}(c: Parameter[Qchar], d: Parameter[Qchar], a: bool) -> bool:\n    return {mix.format(e=f'c {eq} d')}\n"
+        elif form == 4:
+            n = r.randint(2, 3)
+            params, args, ret = [("c", f"Qlist[Qchar, {n}]"), ("k", "Qchar")], [("a", "bool")], "bool"
+            src = f"def {name}(c: Parameter[Qlist[Qchar, {n}]], a: bool, k: Parameter[Qchar]) -> bool:\n    v = a\n    for x in c:\n        v = v ^ (x == k)\n    return v\n"
+        elif form == 5:
+            rows, cols = r.choice([(2, 2), (2, 3), (3, 2)])
+            cells = [(i, j) for i in range(rows) for j in range(cols)]
+            (i0, j0), (i1, j1), (i2, j2) = r.sample(cells, 3)
+            params, args, ret = [("m", f"Qmatrix[bool, {rows}, {cols}]")], [("a", "bool"), ("b", "bool")], "bool"
+            src = f"def {name}(m: Parameter[Qmatrix[bool, {rows}, {cols}]], a: bool, b: bool) -> bool:\n    return (m[{i0}][{j0}] and a) ^ (m[{i1}][{j1}] or b) ^ m[{i2}][{j2}]\n"
+        elif form == 6:
+            params, args, ret = [("c", "Tuple[Tuple[bool, Qint[2]], bool]")], [("a", "bool"), ("x", "Qint[2]")], "bool"
+            src = f"def {name}(x: Qint[2], c: Parameter[Tuple[Tuple[bool, Qint[2]], bool]], a: bool) -> bool:\n    return ((c[0][1] {cmp_} x) ^ c[1]) or (c[0][0] and a)\n"
+        elif form == 7:
+            params, args, ret = [("c", "Qint[8]")], [("a", "bool"), ("x", "Qint[2]")], "bool"
+            src = f"def {name}(c: Parameter[Qint[8]], x: Qint[2], a: bool) -> bool:\n    return {mix.format(e=f'c {cmp_} {r.randrange(256)}')} or (x == 3)\n"
+        else:
+            params, args, ret = [("c", "Qchar")], [("a", "Qchar")], "bool"
+            src = f"def {name}(c: Parameter[Qchar], a: Qchar) -> bool:\n    return a {r.choice(['==', '!='])} c\n"
     elif t == "iterate_twice":
         n = r.randint(2, 3)
         params, args, ret = [("p", f"Qlist[bool, {n}]")], [("a", "bool"), ("b", "bool")], "bool"
@@ -345,6 +383,48 @@ def gen_d(r, name):
 # ------------------------------------------------------------------ harness-side specialisation and Python-level value
 
 
+QCHARS = ["a", "b", "z", "A", "0", " ", "~"]
+QFIXED_ORDER = [(1, 2), (1, 3), (1, 4), (1, 6), (2, 2), (2, 3), (2, 4), (2, 6), (3, 3), (3, 4), (3, 6), (4, 4), (4, 6)]  # the library's inference order
+
+
+def fixed_of(t):
+    m = re.match(r"^Qfixed\[(\d+),\s*(\d+)\]$", t.strip())
+    return (int(m.group(1)), int(m.group(2))) if m else None
+
+
+def gen_value08(t, r):
+    """gen_value plus the parameter types only C08 uses (values exactly representable in the declared type)"""
+    from m_c10 import _split_top
+
+    t = t.strip()
+    fx = fixed_of(t)
+    if fx:
+        return r.randrange(2 ** (fx[0] + fx[1])) / (2 ** fx[1])
+    if t == "Qchar":
+        return r.choice(QCHARS)
+    m = re.match(r"^Qmatrix\[(.*)\]$", t)
+    if m:
+        et, rows, cols = _split_top(m.group(1))
+        return [[gen_value08(et, r) for _ in range(int(cols))] for _ in range(int(rows))]
+    m = re.match(r"^Tuple\[(.*)\]$", t)
+    if m:
+        return [gen_value08(x, r) for x in _split_top(m.group(1))]
+    m = re.match(r"^Qlist\[(.*)\]$", t)
+    if m:
+        parts = _split_top(m.group(1))
+        if len(parts) == 2 and parts[1].strip().isdigit():
+            return [gen_value08(parts[0], r) for _ in range(int(parts[1]))]
+    return gen_value(t, r)
+
+
+def inferred_fixed(v):
+    """the fixed-point type the front end infers for a float literal (first in its order that holds the value within 0.05)"""
+    for i, f in QFIXED_ORDER:
+        if v < 2 ** i and abs(v * 2 ** f - round(v * 2 ** f)) / 2 ** f < 0.05:
+            return (i, f)
+    return None
+
+
 def literal(v):
     if isinstance(v, list):
         return ast.Tuple(elts=[literal(x) for x in v], ctx=ast.Load())
@@ -386,7 +466,9 @@ BUILTIN_QINT = (2, 3, 4, 5, 6, 7, 8, 12, 16)
 
 
 def narrower_than_declared(params, values):
-    """does some Qint leaf value need fewer bits than its declared width (the F-C08-1 situation)?"""
+    """which kinds of leaf values get a type other than the declared one when written as a bare literal (the F-C08-1 /
+    F-C08-2 situation): {"qint"} a Qint value needing fewer bits than declared, {"qfixed"} a float whose inferred
+    fixed-point type is not the declared one; empty set = none"""
     from m_c10 import _split_top
 
     def leaves(ty, v):
@@ -394,26 +476,34 @@ def narrower_than_declared(params, values):
         w = width(ty)
         if w is not None:
             if isinstance(v, int) and not isinstance(v, bool):
-                yield w, v
+                yield "qint", w, v
             return
-        m = re.match(r"^(Tuple|Qlist|List)\[(.*)\]$", ty)
+        fx = fixed_of(ty)
+        if fx is not None:
+            if isinstance(v, float):
+                yield "qfixed", fx, v
+            return
+        m = re.match(r"^(Tuple|Qlist|List|Qmatrix)\[(.*)\]$", ty)
         if not m or not isinstance(v, list):
             return
         parts = _split_top(m.group(2))
         if m.group(1) == "Tuple":
             elts = parts
-        elif m.group(1) == "Qlist" and len(parts) == 2 and parts[1].isdigit():
-            elts = [parts[0]] * len(v)
+        elif m.group(1) == "Qmatrix":
+            elts = [f"Qlist[{parts[0]}, {parts[2]}]"] * len(v)
         else:
             elts = [parts[0]] * len(v)
         for et, ev in zip(elts, v):
             yield from leaves(et, ev)
 
+    out = set()
     for n, t in params:
-        for w, v in leaves(t, values.get(n)):
-            if max(2, int(v).bit_length()) < w:
-                return True
-    return False
+        for kind, w, v in leaves(t, values.get(n)):
+            if kind == "qint" and max(2, int(v).bit_length()) < w:
+                out.add("qint")
+            if kind == "qfixed" and inferred_fixed(v) != w:
+                out.add("qfixed")
+    return out
 
 
 def injected_typed(src, values, params):
@@ -432,9 +522,14 @@ def injected_typed(src, values, params):
             if w not in BUILTIN_QINT or not isinstance(v, int) or isinstance(v, bool):
                 return None
             val = ast.Call(func=ast.Name(id=f"Qint{w}", ctx=ast.Load()), args=[ast.Constant(value=v)], keywords=[])
+        elif fixed_of(ptypes.get(a.arg, "")) is not None:
+            i_, f_ = fixed_of(ptypes[a.arg])
+            if (i_, f_) not in QFIXED_ORDER or not isinstance(v, float):
+                return None
+            val = ast.Call(func=ast.Name(id=f"Qfixed{i_}_{f_}", ctx=ast.Load()), args=[ast.Constant(value=v)], keywords=[])
         else:
-            if "Qint" in ptypes.get(a.arg, ""):
-                return None  # Qint leaves inside a list / tuple cannot be written as typed constants here
+            if "Qint" in ptypes.get(a.arg, "") or "Qfixed" in ptypes.get(a.arg, ""):
+                return None  # typed leaves inside a list / tuple cannot be written as typed constants here
             val = literal(v)
         pre.append(ast.Assign(targets=[ast.Name(id=a.arg, ctx=ast.Store())], value=val))
     fd.args.args = [a for a in fd.args.args if a.arg not in values]
@@ -463,6 +558,25 @@ def encode_bits(name, ty, v):
         if not isinstance(v, int) or isinstance(v, bool) or v >= 2 ** w:
             return None
         return {f"{name}.{i}": bool((v >> i) & 1) for i in range(w)}
+    fx = fixed_of(ty)
+    if fx is not None:
+        i_, f_ = fx
+        if not isinstance(v, float) or v < 0 or v >= 2 ** i_ or (v * 2 ** f_) != int(v * 2 ** f_):
+            return None
+        ip, fp = int(v), int(round((v - int(v)) * 2 ** f_))
+        out = {f"{name}.{k}": bool((ip >> k) & 1) for k in range(i_)}  # integer part, least significant first
+        out.update({f"{name}.{i_ + k}": bool((fp >> (f_ - 1 - k)) & 1) for k in range(f_)})  # fraction, most significant first
+        return out
+    if ty == "Qchar":
+        if not isinstance(v, str) or len(v) != 1 or ord(v) > 255:
+            return None
+        return {f"{name}.{k}": bool((ord(v) >> k) & 1) for k in range(8)}
+    m = re.match(r"^Qmatrix\[(.*)\]$", ty)
+    if m:
+        from m_c10 import _split_top
+
+        et, rows, cols = _split_top(m.group(1))
+        return encode_bits(name, "Tuple[" + ", ".join([f"Qlist[{et}, {int(cols)}]"] * int(rows)) + "]", v)
     m = re.match(r"^Tuple\[(.*)\]$", ty)
     elts = None
     if m:
@@ -509,7 +623,7 @@ class _T:
 
 def python_function(src, extra_srcs=()):
     """the unbound program as plain Python on ints / bools / tuples"""
-    ns = {"Qint": _T, "Qlist": _T, "Tuple": _T, "List": _T, "Parameter": _T, "bool": bool}
+    ns = {"Qint": _T, "Qlist": _T, "Tuple": _T, "List": _T, "Parameter": _T, "bool": bool, "Qfixed": _T, "Qchar": _T, "Qmatrix": _T}
     for w in (2, 3, 4, 5, 6, 7, 8):
         ns[f"Qint{w}"] = int
     for s in extra_srcs:
@@ -572,7 +686,7 @@ class Gen:
             if len(order) > 1 and r.random() < 0.4:
                 r.shuffle(order)
         else:
-            vals = {n: gen_value(t, r) for n, t in u["params"]}
+            vals = {n: gen_value08(t, r) for n, t in u["params"]}
             order = [n for n, _ in u["params"]]
             if len(order) > 1 and r.random() < 0.5:
                 r.shuffle(order)
@@ -961,9 +1075,9 @@ def run_segment(plan, ctx, detail=False, table=None):
                                     typed_ok = d2 is not None and all(crop(pyf(**dict(ins, **pv)), ua["ret"]) == got for ins, got in d2)
                             if narrow and typed_ok is not False:
                                 v = viol("B1", op, ["bound function differs from the Python value although the same program with the parameter kept as an argument of its declared type agrees with it"], at=rec.get("b1_at"), values=a["values"])
-                                v["role"] = "declared-type-dropped"
+                                v["role"] = "declared-fixed-type-dropped" if "qfixed" in narrow else "declared-type-dropped"
                                 soft.append(v)
-                                probe("declared_type_dropped_(known_finding_class)")
+                                probe("declared_type_dropped_(known_finding_class)" if "qfixed" not in narrow else "declared_fixed_type_dropped_(known_finding_class)")
                             else:
                                 violation = viol("B1", op, ["bound function differs from the Python value; the same program with the parameters kept as typed arguments agrees with it, and no parameter value is narrower than its declared type"], at=rec.get("b1_at"), values=a["values"], order=a["order"])
                         elif agree is True:
@@ -976,7 +1090,7 @@ def run_segment(plan, ctx, detail=False, table=None):
                             # the typed-argument form is too large to tabulate; a Qint value narrower than declared
                             # is involved: the known finding's situation, reported under its class
                             v = viol("B1", op, ["bound function differs from the Python value although the same program with the parameter kept as an argument of its declared type agrees with it"], at=rec.get("b1_at"), values=a["values"])
-                            v["role"] = "declared-type-dropped"
+                            v["role"] = "declared-fixed-type-dropped" if "qfixed" in narrower_than_declared(ua["params"], a["values"]) else "declared-type-dropped"
                             v["undiagnosed"] = True
                             soft.append(v)
                             probe("declared_type_dropped_probable_(typed_form_too_large)")
